@@ -529,6 +529,8 @@ pub async fn col_main(args: &[String]) -> i32 {
     let seed: u64 = args.first().and_then(|s| s.parse().ok()).unwrap_or(1);
     let n: u64 = args.get(1).and_then(|s| s.parse().ok()).unwrap_or(100);
     let shard: u64 = args.get(2).and_then(|s| s.parse().ok()).unwrap_or(0);
+    // cap on the column length (interpreter-speed runs: Miri)
+    let max_n: usize = args.get(3).and_then(|s| s.parse().ok()).unwrap_or(usize::MAX);
     let mut cases = 0u64;
     let mut blocks = 0usize;
     let mut ops = 0usize;
@@ -537,7 +539,8 @@ pub async fn col_main(args: &[String]) -> i32 {
     let mut violations: Vec<Value> = vec![];
     let mut samples: Vec<Value> = vec![];
     for i in 0..n {
-        let case = ColCase::generate(seed.wrapping_mul(1_000_003).wrapping_add(shard * 10_000_019).wrapping_add(i));
+        let mut case = ColCase::generate(seed.wrapping_mul(1_000_003).wrapping_add(shard * 10_000_019).wrapping_add(i));
+        case.n = case.n.min(max_n);
         use futures::FutureExt;
         let o = match std::panic::AssertUnwindSafe(run_col_case(&case, 4)).catch_unwind().await {
             Ok(o) => o,
